@@ -502,3 +502,31 @@ def rebuilt_clash_cases(ff, names=None):
                 out.append({"x": x, "pos": pos, "ff": ff, "opt": "default",
                             "env": [["omit", sfx], ["clashheavy", sfx[-1]]]})
     return out
+
+
+def multi_clash_cases(ff, names=None, all_pairs=False):
+    """Several clash probes on one residue (a clash that the first torsion
+    cannot resolve makes the debumper go on to further torsions): all
+    side-chain hydrogens at once, and every hydrogen paired with the last
+    one (thorough: all pairs)."""
+    out = []
+    for x in (names or corpus.INPUT_NAMES):
+        for pos in corpus.POSITIONS:
+            hs = [h for h in hydrogens_of(x, pos)
+                  if h not in ("H", "H2", "H3", "HA", "HA2", "HA3", "HO")]
+            if len(hs) < 2:
+                continue
+            sets = [hs]
+            if all_pairs:
+                sets += [[a, b] for i, a in enumerate(hs) for b in hs[i + 1:]]
+            else:
+                sets += [[h, hs[-1]] for h in hs[:-1]]
+                sets += [[hs[0], h] for h in hs[1:-1]]
+            seen = []
+            for st in sets:
+                if st in seen:
+                    continue
+                seen.append(st)
+                out.append({"x": x, "pos": pos, "ff": ff, "opt": "default",
+                            "env": [["clash", h] for h in st]})
+    return out
